@@ -196,7 +196,8 @@ def view(o):
 
 LIB = [("java.util", "List"), ("java.util", "ArrayList"), ("java.util", "Map"), ("java.io", "IOException"), ("org.lib", "Tool"), ("org.lib.deep", "Order"),
        ("org.lib", "Helper"), ("javax.inject", "Inject"), ("org.lib", "Config"), ("com.acme", "Émile")]
-USES = ["field", "anno", "new", "static", "staticfield", "staticarg", "catch", "param", "ret", "extends", "generic", "throws", "cast", "local"]
+USES = ["field", "anno", "new", "static", "staticfield", "staticarg", "catch", "param", "ret", "extends", "generic", "throws", "cast", "local",
+        "nestedfield", "nestedparam", "nestedlocal", "nestednew"]
 
 
 def unused_file(rng, idx):
@@ -271,6 +272,15 @@ def unused_file(rng, idx):
             methods.append("    Object ca%s(Object o) { return (%s) o; }" % (n, n))
         elif how == "local":
             methods.append("    void lo%s() { %s v = null; }" % (n, n))
+        # the import is used only as the outer name of a nested type: Map.Entry<String, String>, Outer.Inner
+        elif how == "nestedfield":
+            fields.append("    private %s.Entry<String, String> n%s;" % (n, n.lower()))
+        elif how == "nestedparam":
+            methods.append("    void np%s(%s.Inner p) { }" % (n, n))
+        elif how == "nestedlocal":
+            methods.append("    void nl%s() { %s.Inner v = null; }" % (n, n))
+        elif how == "nestednew":
+            methods.append("    Object nn%s() { return new %s.Builder(); }" % (n, n))
     if kind == "class" and rng.random() < 0.5:
         methods.append("    void run() { }")
     lines += class_annos
